@@ -38,7 +38,7 @@ RParseDemands(e, r) ==
     <<"C10.value",    (IsOk(r) /\ e.ok) => e.v = r.v>>,
     <<"C10.reject",   IsFail(r) => ~e.ok>>,
     <<"C10.zero",     (~e.ok /\ ~e.panic) => e.v = 0>>,
-    <<"C10.typed",    (IsFail(r) /\ ~e.ok /\ ~e.panic) => e.typed>>,
+    <<"C10.typed",    (IsFail(r) /\ ~e.ok) => e.typed>>,
     <<"C10.valid",    ~e.panic => (e.vok = IsOk(r))>>,
     <<"C10.validtyped", (~IsOk(r) /\ ~e.vok) => e.vtyped>>,
     <<"C18.toolong",  (IsFail(r) /\ ~e.ok /\ ~e.panic) => (SentinelsOK(r, e.is) /\ SentinelsOK(r, e.vis))>>,
